@@ -76,6 +76,25 @@ class Weird:
         return NotImplemented
 
 
+class Box:
+    """hashable but mutable user object with a code-like repr"""
+
+    def __init__(self, name, items=None):
+        self.name = name
+        self.items = items if items is not None else []
+
+    def __repr__(self):
+        return f"Box({self.name!r}, {self.items!r})"
+
+    def __eq__(self, other):
+        if type(other) is Box:
+            return (self.name, self.items) == (other.name, other.items)
+        return NotImplemented
+
+    def __hash__(self):
+        return 7
+
+
 LOG = []
 
 
